@@ -237,7 +237,7 @@ def run(tier):
             return {heck[name.replace("r#", "")][case], serde_ref[case][name]}
         return {expected_key(name, case)}
 
-    n = 120 if tier == "quick" else 1500
+    n = 120 if tier == "quick" else 12000
     base = common.seed() * 7000003
     jobs = []
     for i in range(n):
